@@ -8,7 +8,7 @@ def walk(x):
     if isinstance(x, dict):
         for k, v in x.items():
             if k in ('name', 'obligation') and isinstance(v, str) and len(v) > 3 and v[0] == 'C' and v[1:3].isdigit() and '.' in v and '#' not in v:
-                names.add(v.split('/')[0])
+                names.add(v)
             walk(v)
     elif isinstance(x, list):
         for v in x:
